@@ -12,7 +12,7 @@ from vf import gen, harness, refdec, speclib, synth
 ID = "C13"
 LEVEL = "exploration"
 RULE = ("seeded products: 1..8 images over polarisation subsets x scan suffix sets (none, F1..F7 / B1..B7 subsets), levels "
-        "1.1/1.5/3.1, map projection record present/absent, summary lines shuffled within and across sections for a third of "
+        "1.1/1.5/3.1, image files listed polarisation-major / scan-major / reversed / in random order (ordinals need not be alphabetical), map projection record present/absent, summary lines shuffled within and across sections for a third of "
         "the cases, LF/CRLF, workers run under different PYTHONHASHSEEDs. evaluations = products; non-trivial = product with "
         ">=2 image files or a scan suffix; distinct = distinct (level, pols, #scans, mp, shuffled) signatures")
 ASSUMPTIONS = ["file names always carry a polarisation (the naming rule presumes it)",
@@ -41,13 +41,15 @@ def run_case(i, tier, seed):
     shuffled = i % 3 == 1
     newline = "\r\n" if i % 5 == 0 else "\n"
     n_mp = rng.choice([0, 1])
+    image_order = [None, "scan-major", "reversed", "random"][(i // 2) % 4]
     files, info = gen.rich_product(rng, [seed, i], level=level, n_images=n_pols, scans=scans, max_lines=5, max_pixels=4,
-                                   leader_kw={"n_mp": n_mp}, summary_order="shuffle" if shuffled else None, newline=newline)
+                                   leader_kw={"n_mp": n_mp}, summary_order="shuffle" if shuffled else None, newline=newline,
+                                   image_order=image_order)
     imgs = info["names"]["imgs"]
     kind = ["memory", "vfs", "local"][i % 3]
     root = harness.unique_root(kind)
     url = synth.install(files, root, kind)
-    sig = f"{level}|pols:{n_pols}|scans:{len(scans) if scans != [None] else 0}|mp:{n_mp}|shuf:{int(shuffled)}|{kind}"
+    sig = f"{level}|pols:{n_pols}|scans:{len(scans) if scans != [None] else 0}|mp:{n_mp}|shuf:{int(shuffled)}|{kind}|order:{image_order}"
     try:
         try:
             tree = harness.open_tree(url, use_cache=False, records_per_chunk=rng.choice([1, 2, 1024]))
